@@ -953,7 +953,7 @@ pub fn gen_c16(thorough: bool, seed: u64) -> Vec<Episode> {
     }
     // forms of several hundred terms (whatever a Display impl does per batch of terms)
     for (n, len) in [(8usize, 257usize), (8, 300), (9, 513), (9, 600)] {
-        if !thorough && len > 520 {
+        if !thorough && len > 320 {
             continue;
         }
         let mut seen = std::collections::HashSet::new();
